@@ -521,6 +521,8 @@ def spec_sign_precomputed():
             done = eq(c, 'L:k', 'ptr:attrs.length') if eq(c, 'L:k', 'ptr:attrs.length') is not None else eq(c, 'L:k', 'attrs.length')
             hit = eq(c, 'sk.b[L:i].idx', 'attrs.attrs[L:k].idx')
             if to == 'exit':
+                if done is not True:
+                    raise Mismatch('the fill loop can be left although free slots and attributes remain: a free slot named by the list is not filled')
                 return {}
             e = {'L:i': S('L:i') + 1}
             if hit is None:
@@ -530,6 +532,11 @@ def spec_sign_precomputed():
                 e['L:k'] = S('L:k') + 1
             return e
         if (frm, to) == ('L0', 'exit'):
+            # exit condition of the Hoare argument: every free slot was visited, or no attribute is left that could name one
+            done = eq(c, 'L:k', 'ptr:attrs.length') if eq(c, 'L:k', 'ptr:attrs.length') is not None else eq(c, 'L:k', 'attrs.length')
+            if eq(c, 'L:i', 'sk.l') is not True and done is not True:
+                raise Mismatch('the fill loop can end before i == sk.l while attributes remain: a free slot named by the list is not filled '
+                               '(b_i^id_i missing from a0, the signature does not verify)')
             return {}
         raise Mismatch('unexpected control flow %s -> %s' % (frm, to))
     return dict(fn=WK + 'sign_precomputed', outputs=['signature.'], state=['L:k', 'L:i'], scratch=['L:sx', 'L:s', 'L:prodexp'], links=[], segs=segs)
@@ -658,7 +665,12 @@ def check_function(prog, spec):
         contradictory = False
         for (k, lab) in conds:
             if k[0] in ('cmp', 'truth'):
-                if seen.setdefault(k, lab) != lab:
+                k_, lab_ = k, lab
+                if k[0] == 'cmp' and k[1] in ('==', '!='):
+                    # a == b and a != b (either operand order) are one test
+                    a_, b_ = sorted((k[2], k[3]))
+                    k_, lab_ = ('cmp', '==', a_, b_), (lab if k[1] == '==' else (not lab))
+                if seen.setdefault(k_, lab_) != lab_:
                     contradictory = True
         if contradictory:
             continue
